@@ -271,8 +271,13 @@ func VerifC05IncreaseFee() {
 	if rt.Bool("paidBySomebodyElse") {
 		payer = verifUser2
 	}
-	wallet := verifSmallFee("payer.bridgeCoins")
-	e.bank.SetBalance(payer, e.bridgeDenom, wallet)
+	creatorWallet := verifSmallFee("creator.bridgeCoins")
+	e.bank.SetBalance(verifUser1, e.bridgeDenom, creatorWallet)
+	wallet := creatorWallet
+	if !payer.Equals(verifUser1) {
+		wallet = verifSmallFee("payer.bridgeCoins")
+		e.bank.SetBalance(payer, e.bridgeDenom, wallet)
+	}
 	add := verifSmallFee("addedFee")
 	target := id
 	if rt.Bool("unknownId") {
@@ -291,6 +296,9 @@ func VerifC05IncreaseFee() {
 	rt.Assert(rt.And(target == id, add.IsPositive(), wallet.GTE(add)), "a fee increase takes effect only on an existing pooled transfer, for a positive amount the payer holds")
 	rt.Assert(e.bank.Balance(payer, e.bridgeDenom).Equal(wallet.Sub(add)), "raising the fee costs the payer exactly the added fee")
 	rt.Assert(e.bank.Balance(verifUser1, verifBase).Equal(user1Base), "the creator's other holdings are untouched")
+	if !payer.Equals(verifUser1) {
+		rt.Assert(e.bank.Balance(verifUser1, e.bridgeDenom).Equal(creatorWallet), "a fee raised by somebody else costs the creator nothing")
+	}
 	rt.Assert(e.where(id) == 1, "the transfer is still in exactly one place")
 	tx, gerr := e.k.GetUnbatchedTxById(e.ctx, id)
 	if gerr == nil {
